@@ -124,7 +124,9 @@ def work_rules(arg):
         gtext = refpeg.to_text(g)
         joiners = ["", " "] + (["\n"] if ("\\n" in gtext or "eolterm" in gtext or tier == "thorough") else [])
         cm = [r for r in g if r[0] == "Comment"]
-        if cm:
+        if cm and cm[0][2][0] == "alt":
+            joiners += [" #z\n", "/*z*/"]
+        elif cm:
             joiners.append(" #z\n" if "#" in cm[0][2][1] else "/*z*/")
         texts = []
         for t in gramgen.inputs(alpha, 3, 70 if tier == "quick" else 160):
@@ -178,6 +180,13 @@ def run(ctx):
     fr = list(gramgen.frules(ctx.tier))
     nb["rules-family"] = len(fr)
     ctx.pmap(work_rules, [(ctx.tier, fr[i:i + 10]) for i in range(0, len(fr), 10)])
+    # the Comment rule as an ordered choice of a line and a block comment (a non-terminal comment rule takes part in memoization);
+    # every metamodel parses many inputs with comments at different offsets
+    both = ("Comment", {}, gramgen.ALT(gramgen.COMMENTS["line"][2], gramgen.COMMENTS["block"][2]))
+    cc = [(label + "|comment-choice", [both if r[0] == "Comment" else r for r in g]) for label, g in gramgen.frules("quick")
+          if any(r[0] == "Comment" and "#" in r[2][1] for r in g)]
+    nb["comment-choice-family"] = len(cc)
+    ctx.pmap(work_rules, [(ctx.tier, cc[i:i + 10]) for i in range(0, len(cc), 10)])
     ff = fresh_family()
     nb["fresh-metamodel-family"] = len(ff)
     ctx.pmap(work_fresh, [ff[i:i + 2] for i in range(0, len(ff), 2)])
